@@ -1059,9 +1059,9 @@ pub const HARNESSES: &[(&str, &str, &str, &str)] = &[
     ("PNCounterDSTHarness", "M", "crdt-pncounter", ""),
     ("ORSetDSTHarness", "M", "crdt-orset", ""),
     ("VectorClockDSTHarness", "M", "crdt-vclock", ""),
-    ("CrashSimulator", "M", "dst", "through DSTSimulation; checkpoint / simulate_state_loss: family crash-sim"),
+    ("CrashSimulator", "M", "dst", "through DSTSimulation; its own API (checkpoint, simulate_state_loss, complete_recovery, …): family dst-api preset crash, explored"),
     ("DSTSimulation", "M", "dst", ""),
-    ("BatchRunner", "E", "dst-batch", "run_default / run_sequential compared with single runs of the same seeds"),
+    ("BatchRunner", "E", "batch", "run_default / run_sequential compared with single runs of the same seeds (family batch, preset runner)"),
     ("RedisDSTSimulation", "M", "redis-dst", "Zipf table probed from the real sampler"),
     ("ZipfianGenerator", "M", "redis-dst", "sample() probed for every draw value: monotone step function, input of the model"),
     ("ExecutorDSTHarness", "E", "executor", "draws depend on a response-driven shadow of ~59 command kinds"),
@@ -1072,22 +1072,38 @@ pub const HARNESSES: &[(&str, &str, &str, &str)] = &[
     ("TransactionDSTHarness", "M", "transaction", ""),
     ("MultiNodeSimulation", "E", "multi-node", "+ multi-node-gen (generated scenarios)"),
     ("StreamingDSTHarness", "E", "streaming", ""),
-    ("StreamingWorkload", "E", "streaming", "the workload generator of StreamingDSTHarness"),
+    ("StreamingWorkload", "M", "streaming-workload", "operation sequence predicted and compared with the history the real harness records (workload_ops_independent_of_store)"),
     ("CompactionDSTHarness", "E", "compaction", ""),
-    ("CompactionWorkload", "E", "compaction", "the workload generator of CompactionDSTHarness"),
+    ("CompactionWorkload", "M", "compaction-workload", "as StreamingWorkload"),
     ("WalDSTHarness", "M", "wal", ""),
     ("PipelineSimulator", "E", "connection", "its observable result does not depend on the seed"),
-    ("SimulatedConnection", "E", "connection", "through PipelineSimulator + family connection-gen"),
-    ("SimulationHarness", "M", "scenario", "timing (invoke / complete times) predicted; replies compared across processes"),
-    ("ScenarioBuilder", "M", "scenario", ""),
+    ("SimulatedConnection", "E", "connection-gen", "generated pipelines, partial reads, partial arrivals; also through PipelineSimulator"),
+    ("SimulationHarness", "M", "scenario-timing", "timing (invoke / complete times) predicted (scenario_timing_independent_of_executor); replies compared across processes (also family scenario, E)"),
+    ("ScenarioBuilder", "M", "scenario-timing", "run and run_with_eviction"),
     ("AclDSTHarness", "N", "-", "behind cargo feature `acl` (off in the default build, in the 691-test baseline and in this harness: enabling it here would change connection_optimized.rs for every other property); its SOURCE is covered by the nondeterminism scan below (tier 1)"),
 ];
 
 /// pub fns / fields that c20.rs does not mention, and why that is acceptable
 pub const NOT_DRIVEN: &[(&str, &str)] = &[
-    // kernel
-    ("SimulatedRuntime::new", "see HARNESSES: SimulatedRuntime"),
-    ("SimulatedRuntime::context", "see HARNESSES: SimulatedRuntime"),
+    // behind cargo feature `acl` (see HARNESSES: AclDSTHarness)
+    ("run_acl_batch", "feature acl: not compiled into this harness"),
+    ("summarize_acl_batch", "feature acl: not compiled into this harness"),
+    ("AclDSTConfig::new", "feature acl"),
+    ("AclDSTConfig::small_users", "feature acl"),
+    ("AclDSTConfig::large_users", "feature acl"),
+    ("AclDSTConfig::high_churn", "feature acl"),
+    ("AclDSTConfig.num_operations", "feature acl"),
+    ("AclDSTConfig.num_users", "feature acl"),
+    ("AclDSTConfig.key_pool_size", "feature acl"),
+    ("AclDSTConfig.password_pool_size", "feature acl"),
+    // a hook of this framework, not a simulation entry point
+    ("SimulatedConnection::verif_encode_resp", "verification hook (cfg redis_rust_verif) used by C04's correspondence"),
+    // configuration fields no code reads — CHECKED: the scan finds no `.field` access in any simulation-reachable file
+    ("CRDTDSTConfig.max_operations", "inert: never read"),
+    ("CRDTDSTConfig.partition_prob", "inert: never read (the harnesses implement message drops only)"),
+    ("CompactionDSTConfig.max_operations", "inert: never read"),
+    ("StreamingDSTConfig.max_operations", "inert: never read"),
+    ("DSTConfig.ops_per_step", "inert: never read"),
 ];
 
 pub struct Entry {
@@ -1137,8 +1153,17 @@ fn entry_points(tree: &Tree, out: &mut Out) -> serde_json::Value {
                     let key = format!("{}.{}", name, f);
                     if word_in(&drv, f) {
                         n_driven += 1;
-                    } else if not_driven.contains_key(key.as_str()) {
+                    } else if let Some(why) = not_driven.get(key.as_str()) {
                         n_listed += 1;
+                        if why.starts_with("inert") {
+                            // CHECKED: nobody reads the field
+                            let needle = format!(". {} ", f);
+                            if let Some((rf, _)) = tree.files.iter().find(|(rf, x)| tier_of(rf) != 0 && format!("{} ", x.text).contains(&needle)) {
+                                out.violation(&format!("C20:coverage:config-field-not-generated:{}", key),
+                                    &format!("{} is listed as inert (never read) but {} now reads `.{}`: it must become generated input of a C20 family", key, rf, f),
+                                    json!({"field": key, "read_in": rf}));
+                            }
+                        }
                     } else {
                         out.violation(&format!("C20:coverage:config-field-not-generated:{}", key),
                             &format!("{}: the configuration field {} is never set / read by the C20 harness (no generated configuration varies it) and is not listed in NOT_DRIVEN", file, key),
@@ -1164,7 +1189,8 @@ fn entry_points(tree: &Tree, out: &mut Out) -> serde_json::Value {
             n_fns += 1;
             let key = if f.owner == "-" { f.name.clone() } else { format!("{}::{}", f.owner, f.name) };
             let driven = if f.owner == "-" {
-                word_in(&drv, &format!("{}(", f.name))
+                // called, or handed to a macro / passed as a function value
+                word_in(&drv, &format!("{}(", f.name)) || word_in(&drv, &format!("{},", f.name)) || word_in(&drv, &format!("{})", f.name))
             } else if f.has_self {
                 drv.contains(&format!(".{}(", f.name))
             } else {
